@@ -1,9 +1,13 @@
-/* vcat [chunk] : copy stdin to stdout using read/write of `chunk` bytes (default 4096) */
+/* vcat [chunk] [exit] [stderr-marker] : copy stdin to stdout using read/write of `chunk` bytes
+   (default 4096), exit with `exit` (default 0); a third argument is written to stderr first. */
 #include <stdlib.h>
+#include <string.h>
 #include <unistd.h>
 #include <errno.h>
 int main(int argc, char **argv) {
     size_t chunk = argc > 1 ? (size_t)atol(argv[1]) : 4096;
+    int code = argc > 2 ? atoi(argv[2]) : 0;
+    if (argc > 3) { (void)!write(2, argv[3], strlen(argv[3])); (void)!write(2, "\n", 1); }
     if (chunk == 0) chunk = 1;
     char *buf = malloc(chunk);
     for (;;) {
@@ -17,5 +21,5 @@ int main(int argc, char **argv) {
             off += w;
         }
     }
-    return 0;
+    return code;
 }
